@@ -5,7 +5,7 @@
 # 2) apply to /repo, run the named checks (default: the property's own), undo.
 set -u
 id=$1; shift
-checks=${@:-$id}
+checks=${@:-${id%%-*}}
 root=${SEEDROOT:-/tmp/seed-}$id; src=$root/_seed
 # default: the recorded copy under /verif/seeded/<id>
 if [ ! -d "$src" ]; then src=/verif/seeded/$id; root=""; fi
